@@ -183,3 +183,550 @@ def derived_counts(eng: Engine, ctx: Ctx, rid: str) -> int:
             ncell_src = facts["derived_counters"].get(eng.tables.const.get("NCELL", "NCell"))
             ctx.check(ncell_src in keys, rid, f.qualname, "map builder call site guarded by the cell-mask key", expected=f"anam == {ncell_src!r}", found=guard_text(e.guards)[:160], **eng.loc(f, e.node))
     return n
+
+
+# ============================================================================ C08-D1 CRC transfer function (shared with C01, C05, C07)
+def _mulmod_x(v: int, g: int, deg: int) -> int:
+    v <<= 1
+    if v >> deg & 1:
+        v ^= g
+    return v
+
+
+def crc_reference_forms(syms: Syms, g: int, deg: int = 24, obits: int = 8):
+    """Expected affine forms of the next state: s' = (s*x^obits + o*x^deg) mod g, state bits 's.b<j>', octet bits 'o.b<k>'."""
+    forms = [0] * deg
+    for j in range(deg):  # state bit j contributes x^(j+obits) mod g
+        v = 1 << j
+        for _ in range(obits):
+            v = _mulmod_x(v, g, deg)
+        for i in range(deg):
+            if v >> i & 1:
+                forms[i] ^= syms.bit(f"s.b{j}")
+    for k in range(obits):  # octet bit k contributes x^(k+deg) mod g
+        v = 1 << k
+        for _ in range(deg):
+            v = _mulmod_x(v, g, deg)
+        for i in range(deg):
+            if v >> i & 1:
+                forms[i] ^= syms.bit(f"o.b{k}")
+    return forms
+
+
+def crc_transfer(eng: Engine, ctx: Ctx, rid: str):
+    """Returns the generator implied by the analysed transfer function (or None)."""
+    ctx.rule(rid, "the checksum helper's per-octet loop body, abstractly interpreted over GF(2) with a symbolic 24-bit state and a symbolic octet "
+                  "(inner constant-trip loop unrolled), equals s' = (s*x^8 + o*x^24) mod 0x1864CFB with bits >= 24 zero; initial state 0; "
+                  "iterates the whole argument in order; returns the 24-bit state")
+    crc = oracle("frames.json")["crc24q"]
+    g, deg = crc["poly"], crc["width"]
+    f = eng.repo.func("rtcmhelpers.calc_crc24q")
+    ctx.touch(func=f.qualname, file=eng.repo.relpath(f.module))
+    se = SymEval(eng.ce, f, unroll=64).run()
+    loc = eng.loc(f, f.node)
+    msg = ("param", f.params[0])
+    outer = [(lid, info) for lid, info in se.loop_info.items() if info.get("unrolled") is None and isinstance(info["node"], ast.For)]
+    if len(outer) != 1 or se.unsupported:
+        ctx.undecided(rid, f.qualname, "per-octet loop", detail=f"expected exactly one data loop, found {len(outer)}; unsupported: {[type(x).__name__ for x in se.unsupported]}", **loc)
+        return None
+    lid, info = outer[0]
+    loc = eng.loc(f, info["node"])
+    ctx.check(info.get("iter") == msg, rid, f.qualname, "loop iterates the whole message in order", expected=f"for <octet> in {f.params[0]}", found=show(info.get("iter", ("?",)))[:80], **loc)
+    # the state variable: the loop-carried variable returned at the end
+    rets = [e for e in se.effects if e.kind == "return"]
+    if len(rets) != 1:
+        ctx.bad(rid, f.qualname, "return", expected="one return of the state", found=f"{len(rets)} returns", **loc)
+        return None
+    state_vars = [v for v in info["assigned"] if ("loopout", lid, v) in set(subterms(rets[0].term))]
+    elem = ("elem", info.get("iter"), lid)
+    tvars = [v for v in info["assigned"] if (info.get("body_end") or {}).get(v) == elem]
+    if len(state_vars) != 1:
+        ctx.undecided(rid, f.qualname, "state variable", detail=f"cannot identify the loop-carried state: {state_vars}", **loc)
+        return None
+    sv = state_vars[0]
+    init = info["pre"].get(sv)
+    ctx.check(init == ("const", crc["init"]), rid, f.qualname, "initial state", expected=str(crc["init"]), found=show(init) if init else "unbound", **loc)
+    bvc = BVContext()
+    bvc.declare(("loop", lid, sv), "s", deg)
+    bvc.declare(elem, "o", 8)
+    body = (info.get("body_end") or {}).get(sv)
+    nxt = bvc.to_bv(body) if body is not None else None
+    if nxt is None or not nxt.known():
+        ctx.undecided(rid, f.qualname, "transfer function", detail="loop body not representable in the GF(2) affine domain: " + (show(body)[:120] if body else "-"), **loc)
+        return None
+    high = [i for i in range(deg, nxt.width()) if nxt.bit(i) != 0]
+    ctx.check(not high, rid, f.qualname, "inductive invariant: state < 2^24 after every octet", expected="bits >= 24 are zero", found=f"bits {high[:4]} may be set: {bvc.syms.render(nxt.bit(high[0])) if high else ''}", **loc)
+    want = crc_reference_forms(bvc.syms, g, deg)
+    diff = [i for i in range(deg) if nxt.bit(i) != want[i]]
+    implied = None
+    o0 = bvc.syms.bit("o.b0")
+    img = sum(1 << i for i in range(deg) if nxt.bit(i) is not None and nxt.bit(i) & o0)
+    implied = (1 << deg) | img
+    ctx.check(not diff, rid, f.qualname, "per-octet transfer function", expected=f"(s*x^8 + o*x^24) mod {crc['poly_hex']} (24 affine forms over 32 input bits)",
+              found=(f"{len(diff)} of 24 output forms differ, e.g. bit {diff[0]}: {bvc.syms.render(nxt.bit(diff[0]))[:70]} vs {bvc.syms.render(want[diff[0]])[:70]}; x^24 maps to {img:#08x} (generator would be {implied:#09x})" if diff else "all 24 forms equal"), **loc)
+    # returned value = the 24-bit state
+    bvr = BVContext(bvc.syms)
+    bvr.declare(("loopout", lid, sv), "s", deg)
+    rv = bvr.to_bv(rets[0].term)
+    same = rv is not None and all(rv.bit(i) == bvr.syms.bit(f"s.b{i}") for i in range(deg)) and rv.width() <= deg
+    ctx.check(bool(same) and not rets[0].guards, rid, f.qualname, "returned value", expected="the 24-bit state", found=rv.render(bvr.syms)[:100] if rv else show(rets[0].term)[:80], **eng.loc(f, rets[0].node))
+    ctx.notes.setdefault("crc", {})["implied_generator"] = hex(implied)
+    ctx.notes["crc"]["input_bits"] = deg + 8
+    ctx.notes["crc"]["output_forms"] = deg
+    return implied if not diff else None
+
+
+# ============================================================================ C01-D4 CRC gate in parse (shared with C05, C08, C17)
+def _is_crc_call(t, msgparam):
+    return t[0] == "call" and t[2] == ("func", "rtcmhelpers.calc_crc24q") and len(t[3]) == 1 and not t[4]
+
+
+def _crc_literal(c, pol, msgparam):
+    """literal means 'CRC of the whole message == 0' -> True; 'CRC of something else' -> 'other'; else None."""
+    arg = None
+    zero = None
+    if _is_crc_call(c, msgparam):
+        arg, zero = c[3][0], (pol is False)
+    elif c[0] == "cmp" and c[1] in ("==", "!=") and _is_crc_call(c[2], msgparam) and c[3] == ("const", 0):
+        arg = c[2][3][0]
+        zero = (c[1] == "==") == pol
+    elif c[0] == "cmp" and c[1] in ("==", "!=") and _is_crc_call(c[3], msgparam) and c[2] == ("const", 0):
+        arg = c[3][3][0]
+        zero = (c[1] == "==") == pol
+    if arg is None:
+        return None
+    if not zero:
+        return "nonzero"
+    return True if arg == msgparam else "other"
+
+
+def crc_gate(eng: Engine, ctx: Ctx, rid: str) -> int:
+    ctx.rule(rid, "in the static parser every disjunct of the path condition (DNF) of the message construction either has the checksum bit of "
+                  "`validate` clear or contains 'calc_crc24q(<whole message>) == 0'; the failing side raises RTCMParseError; the reader passes the raw frame and its validate option")
+    f = eng.repo.func(f"{eng.reader_cls}.parse")
+    ctx.touch(func=f.qualname, file=eng.repo.relpath(f.module))
+    se = eng.symeval(f.qualname)
+    msg = ("param", f.params[0])
+    valp = ("param", "validate") if "validate" in f.params else None
+    n = 0
+    ctors = [e for e in se.effects if e.kind == "call" and e.term[2] == ("class", eng.message_cls)]
+    if not ctors:
+        ctx.bad(rid, f.qualname, "message construction", expected="a RTCMMessage(...) construction", found="none", **eng.loc(f, f.node))
+        return 1
+    VAL = eng.ce.value("rtcmtypes_core", "VALCKSUM")
+    bvc = BVContext()
+    if valp:
+        bvc.declare(valp, "validate", 8)
+        for i in range(8):
+            if isinstance(VAL, int) and VAL >> i & 1:
+                bvc.facts[bvc.syms.bit(f"validate.b{i}")] = 1
+    for e in ctors:
+        for conj in e.dnf:
+            n += 1
+            off = False
+            has_crc = False
+            for c, pol in conj:
+                if _crc_literal(c, pol, msg) is True:
+                    has_crc = True
+                if valp and mentions(c, lambda s: s == valp):
+                    b = bvc.bool_form(c)
+                    if b in (0, 1) and bool(b) != pol:
+                        off = True  # this disjunct is infeasible when the checksum bit is set
+            ok = off or has_crc
+            ctx.check(ok, rid, f.qualname, "construction path: " + (guard_text(conj)[:140]), expected="validation off, or CRC of the whole message is zero",
+                      found="path reaches the constructor with validation on and no zero-CRC test of the whole message", **eng.loc(f, e.node))
+    # failing side raises the parse error
+    raises = [e for e in se.effects if e.kind == "raise"]
+    crc_raises = [e for e in raises if any(_crc_literal(c, pol, msg) == "nonzero" for conj in e.dnf for c, pol in conj)]
+    n += 1
+    okr = bool(crc_raises) and all(e.term[0] == "call" and e.term[2] == ("class", "exceptions.RTCMParseError") for e in crc_raises)
+    ctx.check(okr, rid, f.qualname, "CRC failure raises the parse error", expected="raise RTCMParseError under a non-zero CRC",
+              found=", ".join(show(e.term[2]) for e in crc_raises) or "no raise under the CRC test", **eng.loc(f, (crc_raises or ctors)[0].node))
+    # reader call site: passes raw frame and its validate option
+    asm = eng.repo.func(eng.frame_assembler)
+    sa = eng.symeval(asm.qualname)
+    calls = [e for e in sa.effects if e.kind == "call" and is_self_call(e.term, "parse")]
+    n += 1
+    if len(calls) != 1:
+        ctx.bad(rid, asm.qualname, "parse call site", expected="one call of the static parser", found=f"{len(calls)}", **eng.loc(asm, asm.node))
+    else:
+        t = calls[0].term
+        kw = dict(t[4])
+        argv = t[3][1] if len(t[3]) > 1 else kw.get("validate")
+        okv = argv is not None and argv[0] == "field"
+        init = eng.symeval(f"{eng.reader_cls}.__init__")
+        stored = {e.target[1]: e.term for e in init.effects if e.kind == "store" and e.target and e.target[0] == "self"}
+        okv = okv and stored.get(argv[1]) == ("param", "validate")
+        ctx.check(bool(okv), rid, asm.qualname, "validate forwarded", expected="validate=<field storing the constructor's validate option>", found=show(argv)[:60] if argv else "default used", **eng.loc(asm, calls[0].node))
+    return n
+
+
+# ============================================================================ reader framing (C01-D1/D2/D3/D5/D6/D7; shared with C02, C05, C07, C17)
+class ReaderModel:
+    """Terms of one iteration of the reader loop, shared by the framing rules."""
+
+    def __init__(self, eng: Engine):
+        self.eng = eng
+        self.read = eng.repo.func(f"{eng.reader_cls}.read")
+        self.prim = eng.repo.func(eng.read_primitive)
+        self.asm = eng.repo.func(eng.frame_assembler)
+        self.se = eng.symeval(self.read.qualname)
+        loops = [(lid, info) for lid, info in self.se.loop_info.items() if isinstance(info["node"], ast.While)]
+        if len(loops) != 1:
+            raise AnalysisError(f"reader loop: expected one while loop in {self.read.qualname}, found {len(loops)}")
+        self.lid, self.loop = loops[0]
+        self.reads = [e for e in self.se.effects if e.kind == "call" and is_self_call(e.term, self.prim.name)]
+        self.asm_calls = [e for e in self.se.effects if e.kind == "call" and is_self_call(e.term, self.asm.name)]
+        self.cat = CatContext(self.length_of)
+        self.bvc = BVContext()
+        self.bvc.cat = self.cat
+
+    def is_read(self, t):
+        return t[0] == "call" and is_self_call(t, self.prim.name) and len(t[3]) == 1
+
+    def length_of(self, t):
+        """Length of an atomic bytes source: a read-primitive result has the requested length
+        (contract C01-D3 + the stream returns at most n bytes)."""
+        if self.is_read(t):
+            a = t[3][0]
+            if is_const(a) and isinstance(a[1], int):
+                return a[1]
+            p = to_poly(a)
+            return p
+        return None
+
+    def byte_name(self, term, i):
+        return f"{show(term)}[{i}]"
+
+
+def header_gate(eng: Engine, ctx: Ctx, rid: str, model: ReaderModel | None = None):
+    ctx.rule(rid, "the unique call of the frame assembler is guarded by exactly the cube byte1 = 0xD3 ∧ byte2.b7..b2 = 0 "
+                  "(bit-provenance normal form of the dominating conditions); who-may-call: one site")
+    fr = oracle("frames.json")["rtcm3"]
+    m = model or ReaderModel(eng)
+    f = m.read
+    ctx.touch(func=f.qualname, file=eng.repo.relpath(f.module))
+    callers = [s for s in eng.res.callers_of(m.asm.qualname)]
+    ctx.check(len(callers) == 1 and callers[0].caller == f.qualname, rid, m.asm.qualname, "who may call the frame assembler", expected=f"one call site, in {f.qualname}",
+              found=", ".join(f"{c.caller}:{getattr(c.node, 'lineno', 0)}" for c in callers) or "none", **eng.loc(f, f.node))
+    if len(m.asm_calls) != 1:
+        ctx.bad(rid, f.qualname, "frame assembler call", expected="exactly one call in the reader loop", found=f"{len(m.asm_calls)} call(s)", **eng.loc(f, f.node))
+        return None
+    call = m.asm_calls[0]
+    loc = eng.loc(f, call.node)
+    reads_before = [e for e in m.reads if e.seq < call.seq]
+    if len(reads_before) != 2 or any(not (is_const(e.term[3][0]) and e.term[3][0][1] == 1) for e in reads_before):
+        ctx.bad(rid, f.qualname, "header reads", expected="two 1-byte reads before the frame assembler", found=", ".join(show(e.term)[:40] for e in reads_before) or "none", **loc)
+        return None
+    b1, b2 = reads_before[0].term, reads_before[1].term
+    want = {}
+    for k in range(8):
+        want[m.bvc.syms.bit(f"{m.byte_name(b1, 0)}.b{k}")] = fr["preamble"] >> k & 1
+    for k in range(8 - fr["reserved_zero_bits"], 8):
+        want[m.bvc.syms.bit(f"{m.byte_name(b2, 0)}.b{k}")] = 0
+    # every disjunct of the call's path condition must imply exactly the cube
+    n = 0
+    facts_all = None
+    for conj in call.dnf:
+        n += 1
+        facts = {}
+        for c, pol in conj:
+            fc, exact = m.bvc.cube(c, pol)
+            if fc:
+                if "contradiction" in fc:
+                    facts = None
+                    break
+                facts.update(fc)
+        if facts is None:
+            continue  # infeasible disjunct
+        missing = {k: v for k, v in want.items() if facts.get(k) != v}
+        extra = {k: v for k, v in facts.items() if k not in want}
+        if missing:
+            ctx.bad(rid, f.qualname, "header gate", expected=m.bvc.render_cube(want), found=m.bvc.render_cube(facts) or "no bit constraints",
+                    detail="gate admits headers the standard excludes: unconstrained " + ", ".join(m.bvc.syms.render(k) for k in sorted(missing))[:160], **loc)
+        elif extra:
+            ctx.bad(rid, f.qualname, "header gate", expected=m.bvc.render_cube(want), found=m.bvc.render_cube(facts),
+                    detail="gate rejects valid headers: extra constraints " + m.bvc.render_cube(extra)[:160], **loc)
+        else:
+            ctx.ok(rid, f.qualname, "header gate", found=m.bvc.render_cube(facts), **loc)
+        facts_all = facts if facts_all is None else {k: v for k, v in facts_all.items() if facts.get(k) == v}
+    ctx.instance("gate bit constraints", len(facts_all or {}), 14)
+    # argument handed to the assembler: the two header bytes in order
+    arg = call.term[3][0] if call.term[3] else None
+    segs = m.cat.to_cat(arg) if arg is not None else None
+    ctx.check(segs == [("src", b1, 0, None), ("src", b2, 0, None)], rid, f.qualname, "header handed to the assembler", expected="byte1 ‖ byte2", found=m.cat.render(segs) if segs else "?", **loc)
+    return {"model": m, "facts": facts_all or {}, "b1": b1, "b2": b2, "call": call, "arg": arg}
+
+
+def read_script(eng: Engine, ctx: Ctx, rid: str, gate: dict | None):
+    ctx.rule(rid, "frame assembler: stream requests are exactly [1, size, 3] in that order with size = the 10-bit big-endian value "
+                  "byte2.b1..b0 ‖ byte3 (under the gate facts); the raw frame is hdr ‖ read1 ‖ read2 ‖ read3, each read result used exactly once in read order")
+    fr = oracle("frames.json")["rtcm3"]
+    if not gate:
+        ctx.undecided(rid, eng.frame_assembler, "read script", detail="header gate not established", file="", line=0)
+        return None
+    m: ReaderModel = gate["model"]
+    asm = m.asm
+    ctx.touch(func=asm.qualname)
+    hdr_param = asm.params[1] if len(asm.params) > 1 else None
+    se = SymEval(eng.ce, asm, bind={hdr_param: gate["arg"]}, uid_base=100).run()
+    reads = [e for e in se.effects if e.kind == "call" and is_self_call(e.term, m.prim.name)]
+    loc = eng.loc(asm, asm.node)
+    uncond = all(not e.guards and not e.loops for e in reads)
+    ctx.check(len(reads) == 3 and uncond, rid, asm.qualname, "number of stream requests", expected="3 unconditional requests (length byte, payload, CRC)",
+              found=f"{len(reads)} request(s)" + ("" if uncond else ", some conditional"), **loc)
+    if len(reads) != 3:
+        return None
+    r1, r2, r3 = (e.term for e in reads)
+    ctx.check(r1[3][0] == ("const", 1), rid, asm.qualname, "first request", expected="1 byte (low length byte)", found=show(r1[3][0]), **eng.loc(asm, reads[0].node))
+    ctx.check(r3[3][0] == ("const", fr["crc_bytes"]), rid, asm.qualname, "third request", expected=f"{fr['crc_bytes']} bytes (CRC)", found=show(r3[3][0]), **eng.loc(asm, reads[2].node))
+    # size under the gate facts
+    bvc = BVContext(m.bvc.syms)
+    bvc.cat = CatContext(lambda t: m.length_of(t) if m.is_read(t) else (1 if t == r1 else None))
+    bvc.facts = dict(gate["facts"])
+    size = bvc.to_bv(r2[3][0])
+    want = []
+    for k in range(8):
+        want.append(bvc.syms.bit(f"{m.byte_name(r1, 0)}.b{k}"))
+    for k in range(fr["length_bits"] - 8):
+        want.append(bvc.syms.bit(f"{m.byte_name(gate['b2'], 0)}.b{k}"))
+    from ..domains import BV as _BV
+
+    ok = size is not None and bv_equal(size, _BV(want))
+    ctx.check(ok, rid, asm.qualname, "payload request size", expected="10-bit big-endian length " + _BV(want).render(bvc.syms), found=size.render(bvc.syms) if size else show(r2[3][0])[:100], **eng.loc(asm, reads[1].node))
+    # raw frame
+    rets = [e for e in se.effects if e.kind == "return"]
+    cat = CatContext()
+    wantcat = [("src", gate["b1"], 0, None), ("src", gate["b2"], 0, None), ("src", r1, 0, None), ("src", r2, 0, None), ("src", r3, 0, None)]
+    raws = []
+    for e in rets:
+        for g, leaf in leaves(e.term, ()):
+            raw = leaf[1][0] if leaf[0] == "tuple" and len(leaf[1]) == 2 else None
+            raws.append((raw, e))
+    for raw, e in raws:
+        segs = cat.to_cat(raw) if raw is not None else None
+        ctx.check(segs == wantcat, rid, asm.qualname, "raw frame", expected="byte1 ‖ byte2 ‖ read1 ‖ read2 ‖ read3 (each exactly once, in read order)", found=cat.render(segs) if segs else "?", **eng.loc(asm, e.node))
+    ctx.check(len(rets) >= 1, rid, asm.qualname, "assembler returns (raw, parsed)", expected="a return", found=f"{len(rets)}", **loc)
+    # what is parsed = the raw frame
+    pc = [e for e in se.effects if e.kind == "call" and is_self_call(e.term, "parse")]
+    for e in pc:
+        a0 = e.term[3][0] if e.term[3] else dict(e.term[4]).get("message")
+        segs = cat.to_cat(a0) if a0 is not None else None
+        ctx.check(segs == wantcat, rid, asm.qualname, "bytes handed to the static parser", expected="the raw frame", found=cat.render(segs) if segs else "?", **eng.loc(asm, e.node))
+    ctx.instance("read-primitive requests in the assembler", len(reads), 3)
+    return {"se": se, "reads": reads, "raw": wantcat, "parse_calls": pc, "rets": rets}
+
+
+def _len_facts(conj, data_term, size_term):
+    """From literals over L = len(data): returns (lo, ge_size, infeasible).  lo: constant lower bound (L >= 0 always)."""
+    lo, hi = 0, None
+    ge_size = False
+    lt_size = False
+
+    def is_len(t):
+        return t[0] == "call" and t[2] == ("builtin", "len") and t[3] == (data_term,)
+
+    for c, pol in conj:
+        if c[0] != "cmp":
+            continue
+        op, a, b = c[1], c[2], c[3]
+        from ..symeval import NEGATE
+
+        if not pol:
+            op = NEGATE[op]
+        if is_len(b) and not is_len(a):  # normalise to L op x
+            a, b = b, a
+            op = {"<": ">", ">": "<", "<=": ">=", ">=": "<=", "==": "==", "!=": "!="}.get(op, op)
+        if not is_len(a):
+            continue
+        if is_const(b) and isinstance(b[1], int):
+            k = b[1]
+            if op == "==":
+                lo, hi = max(lo, k), k if hi is None else min(hi, k)
+            elif op == "!=" and k == lo:
+                lo = k + 1
+            elif op == ">":
+                lo = max(lo, k + 1)
+            elif op == ">=":
+                lo = max(lo, k)
+            elif op == "<":
+                hi = k - 1 if hi is None else min(hi, k - 1)
+            elif op == "<=":
+                hi = k if hi is None else min(hi, k)
+        elif b == size_term:
+            if op in (">=", "=="):
+                ge_size = True
+            elif op == "<":
+                lt_size = True
+            elif op == ">":
+                ge_size = True
+    infeasible = (hi is not None and hi < lo) or (ge_size and lt_size)
+    return lo, ge_size, infeasible, lt_size
+
+
+def read_primitive_contract(eng: Engine, ctx: Ctx, rid: str):
+    ctx.rule(rid, "read primitive: one stream.read(size); every normal return has passed `len(data) == 0 -> raise EOFError` and "
+                  "`0 < len(data) < size -> raise RTCMStreamError` (interval reasoning over the path condition gives len >= size and >= 1) and returns the stream's result unmodified")
+    f = eng.repo.func(eng.read_primitive)
+    ctx.touch(func=f.qualname)
+    se = eng.symeval(f.qualname)
+    sf = eng.stream_field
+    sizep = ("param", f.params[1]) if len(f.params) > 1 else None
+    sreads = [e for e in se.effects if e.kind == "call" and e.term[2] == ("attr", ("field", sf), "read")]
+    loc = eng.loc(f, f.node)
+    ctx.check(len(sreads) == 1 and sreads[0].term[3] == (sizep,) and not sreads[0].guards and not sreads[0].loops, rid, f.qualname, "stream request", expected=f"one unconditional self.{sf}.read({f.params[1] if sizep else '?'})",
+              found=", ".join(show(e.term)[:50] for e in sreads) or "none", **loc)
+    if len(sreads) != 1:
+        return 1
+    data = sreads[0].term
+    n = 0
+    for e in se.effects:
+        if e.kind == "return":
+            n += 1
+            ctx.check(e.term == data, rid, f.qualname, "returned value", expected="the stream's result, unmodified", found=show(e.term)[:80], **eng.loc(f, e.node))
+            for conj in e.dnf:
+                lo, ge, infeasible, lt = _len_facts(conj, data, sizep)
+                if infeasible:
+                    continue
+                ctx.check(lo >= 1, rid, f.qualname, "normal return excludes an empty result", expected="len(data) >= 1 on the path", found=f"len(data) >= {lo} under {guard_text(conj)[:100]}", **eng.loc(f, e.node))
+                ctx.check(ge, rid, f.qualname, "normal return excludes a short result", expected="len(data) >= size on the path", found=guard_text(conj)[:120], **eng.loc(f, e.node))
+        if e.kind == "raise":
+            n += 1
+            cls = show(e.term[2]) if e.term[0] == "call" else show(e.term)
+            for conj in e.dnf:
+                lo, ge, infeasible, lt = _len_facts(conj, data, sizep)
+                if infeasible:
+                    continue
+                if lt and lo >= 1:
+                    ctx.check(cls.endswith("RTCMStreamError"), rid, f.qualname, "short read raises the stream error", expected="RTCMStreamError", found=cls, **eng.loc(f, e.node))
+                elif lo == 0:
+                    ctx.check(cls == "EOFError", rid, f.qualname, "empty read raises EOFError", expected="EOFError", found=cls, **eng.loc(f, e.node))
+    return n
+
+
+def payload_slice(eng: Engine, ctx: Ctx, rid: str):
+    ctx.rule(rid, "the constructor receives message[3:-3]: frame minus 3 header and 3 CRC bytes")
+    fr = oracle("frames.json")["rtcm3"]
+    f = eng.repo.func(f"{eng.reader_cls}.parse")
+    se = eng.symeval(f.qualname)
+    msg = ("param", f.params[0])
+    cat = CatContext()
+    hb, cb = fr["header_bytes"], fr["crc_bytes"]
+    n = 0
+    for e in se.effects:
+        if e.kind == "call" and e.term[2] == ("class", eng.message_cls):
+            n += 1
+            kw = dict(e.term[4])
+            arg = e.term[3][0] if e.term[3] else kw.get("payload")
+            segs = cat.to_cat(arg) if arg is not None else None
+            ctx.check(segs == [("src", msg, hb, ("neg", cb))], rid, f.qualname, "constructor payload argument", expected=f"{f.params[0]}[{hb}:-{cb}]", found=cat.render(segs) if segs else (show(arg)[:80] if arg else "none"), **eng.loc(f, e.node))
+    rets = [e for e in se.effects if e.kind == "return"]
+    for e in rets:
+        n += 1
+        ctx.check(e.term[0] == "call" and e.term[2] == ("class", eng.message_cls), rid, f.qualname, "parse returns the constructed message", expected="RTCMMessage(...)", found=show(e.term)[:60], **eng.loc(f, e.node))
+    return n
+
+
+def single_consumer(eng: Engine, ctx: Ctx, rid: str):
+    ctx.rule(rid, "the stream field is assigned only in the constructor; its only uses are .read (1 site), .readline (1 site) and the getter; "
+                  "no seek/peek/tell/unread/truncate call anywhere in the package")
+    sf = eng.stream_field
+    mod, cls = eng.reader_cls.split(".")
+    n = 0
+    uses = {"read": [], "readline": [], "other": [], "store": []}
+    for f in eng.repo.methods(mod, cls):
+        for node in walk_no_nested(f.node):
+            if isinstance(node, ast.Attribute) and node.attr == sf and isinstance(node.value, ast.Name) and node.value.id == "self":
+                par = eng.repo.parent(node)
+                if isinstance(node.ctx, ast.Store):
+                    uses["store"].append((f, node))
+                elif isinstance(par, ast.Attribute) and par.attr in ("read", "readline") and isinstance(eng.repo.parent(par), ast.Call):
+                    uses[par.attr].append((f, node))
+                elif isinstance(par, ast.Return) and f.is_property:
+                    pass
+                else:
+                    uses["other"].append((f, node))
+    for f, node in uses["store"]:
+        n += 1
+        ctx.check(f.name == "__init__", rid, f.qualname, f"store to self.{sf}", expected="only in the constructor", found=f"store in {f.name}", **eng.loc(f, node))
+    for k in ("read", "readline"):
+        n += 1
+        ctx.check(len(uses[k]) == 1, rid, eng.reader_cls, f"self.{sf}.{k} call sites", expected="1", found=f"{len(uses[k])}: " + ", ".join(f"{f.name}:{nd.lineno}" for f, nd in uses[k]),
+                  file=eng.repo.relpath(mod), line=uses[k][0][1].lineno if uses[k] else 0)
+    for f, node in uses["other"]:
+        n += 1
+        ctx.bad(rid, f.qualname, norm(eng.repo.enclosing_stmt(node)), expected=f"self.{sf} used only through .read/.readline and the getter", found="other use of the stream object", **eng.loc(f, node))
+    for f in eng.repo.all_funcs():
+        for node in walk_no_nested(f.node):
+            if isinstance(node, ast.Call) and isinstance(node.func, ast.Attribute) and node.func.attr in ("seek", "peek", "tell", "unread", "truncate", "seekable", "unget", "ungetc"):
+                n += 1
+                ctx.bad(rid, f.qualname, norm(node), expected="no repositioning of any stream", found=f".{node.func.attr}()", **eng.loc(f, node))
+    ctx.instance("stream read sites", len(uses["read"]) + len(uses["readline"]), 2)
+    return n
+
+
+def _joint_leaves(terms: list, guards=()):
+    """Expand several gated terms consistently on their shared conditions."""
+    for i, t in enumerate(terms):
+        if t[0] == "ite":
+            c = t[1]
+            a = [x[2] if (x[0] == "ite" and x[1] == c) else x for x in terms]
+            b = [x[3] if (x[0] == "ite" and x[1] == c) else x for x in terms]
+            return _joint_leaves(a, guards + ((c, True),)) + _joint_leaves(b, guards + ((c, False),))
+    return [(guards, terms)]
+
+
+def read_returns(eng: Engine, ctx: Ctx, rid: str, model: ReaderModel | None = None):
+    ctx.rule(rid, "what `read` can return: the loop can only be left (i) by the EOF handler's `return (None, None)` or (ii) after an iteration that "
+                  "made the loop condition false, and on every such iteration end the returned variables hold the frame assembler's result; "
+                  "every other iteration end (continue / handler) leaves the loop condition unchanged")
+    m = model or ReaderModel(eng)
+    f = m.read
+    se, lid, info = m.se, m.lid, m.loop
+    n = 0
+    rets = [e for e in se.effects if e.kind == "return"]
+    post = [e for e in rets if not e.loops]
+    inloop = [e for e in rets if e.loops]
+    loc = eng.loc(f, f.node)
+    ctx.check(len(post) == 1, rid, f.qualname, "post-loop return", expected="one return after the loop", found=f"{len(post)}", **loc)
+    for e in inloop:
+        n += 1
+        good = e.handler is not None and "EOFError" in norm(e.handler.type or ast.Name(id="")) and e.term == ("const", (None, None))
+        ctx.check(good, rid, f.qualname, norm(e.node), expected="the only in-loop return is `return (None, None)` in the EOFError handler", found=f"{show(e.term)[:40]} in handler {norm(e.handler.type) if e.handler is not None and e.handler.type is not None else '-'}", **eng.loc(f, e.node))
+    if not post or not m.asm_calls:
+        return n
+    rv = post[0].term
+    names = []
+    if rv[0] == "tuple" and len(rv[1]) == 2 and all(x[0] == "loopout" and x[1] == lid for x in rv[1]):
+        names = [x[2] for x in rv[1]]
+    else:
+        ctx.bad(rid, f.qualname, norm(post[0].node), expected="return (raw, parsed) of loop-carried variables", found=show(rv)[:80], **eng.loc(f, post[0].node))
+        return n
+    test = info.get("test")
+    cond_vars = [v for v in info["assigned"] if test is not None and mentions(test, lambda s, v=v: s == ("loop", lid, v))]
+    if len(cond_vars) != 1 or test != ("loop", lid, cond_vars[0]):
+        ctx.undecided(rid, f.qualname, "loop condition", detail=f"loop condition {show(test) if test else '?'} is not a single loop-carried flag", **loc)
+        return n
+    flag = cond_vars[0]
+    init = info["pre"].get(flag)
+    ctx.check(is_const(init) and bool(init[1]), rid, f.qualname, f"initial {flag}", expected="truthy constant (the loop body runs before anything is returned)", found=show(init) if init else "unbound", **loc)
+    call = m.asm_calls[0].term
+    ends = [("fall-through", info.get("body_end"), info.get("body_dead"))] + [(k, st.env, None) for k, st in info.get("ends", [])]
+    for kind, env, dead in ends:
+        if env is None or (kind == "fall-through" and dead):
+            continue
+        fl = env.get(flag, ("undef", flag))
+        vals = [env.get(nm, ("undef", nm)) for nm in names]
+        for g, (flv, a, b) in _joint_leaves([fl] + vals):
+            n += 1
+            if kind == "break":
+                exits = True
+            elif flv == ("loop", lid, flag) or (is_const(flv) and bool(flv[1])):
+                continue  # loop condition unchanged / still true: no exit on this iteration end
+            else:
+                exits = True
+            good = a == ("proj", call, 0) and b == ("proj", call, 1)
+            ctx.check(good, rid, f.qualname, f"iteration end ({kind}) that can leave the loop" + (f" under {guard_text(g)[:60]}" if g else ""), expected="returned variables = (raw, parsed) of the frame assembler",
+                      found=f"{names[0]} = {show(a)[:50]}, {names[1]} = {show(b)[:50]}", **loc)
+    ctx.instance("iteration ends examined", len(ends), 5)
+    return n
